@@ -53,7 +53,7 @@ def _merge_storm(draw):
 
 def strategy(tier):
     return st.one_of(S.program_case(ALL_KINDS, max_steps=8 if tier == "quick" else 14, min_steps=3),
-                     S.lifecycle_case(), _merge_storm())
+                     S.lifecycle_case(), _merge_storm(), S.survivor_case())
 
 RULE = (
     "Two families. (1) 'Merge storms': 2-4 small composite envelopes over single units and 3-9 steps that mostly construct "
